@@ -4,6 +4,11 @@ CLASSES = [8, 16, 32, 48, 64, 80, 96, 112, 128, 160, 192, 224, 256, 320, 384, 44
 UNITS = {
   'front': dict(wrapper='w_front.cpp', mode='seq', cxxflags=MCXX, selftest=True,
                 cut=['internalPoolMalloc', 'getFromLLOCache', 'getTLS', 'doInitialization']),
+  # pubfree (thread mode): cross-thread free / privatisation / re-allocation on one slab block
+  'pub2': dict(wrapper='w_pub.cpp', mode='lcs', unroll=2, cxxflags=MCXX, prune=True,
+              threads={'vp_thr_free': ['a', 'b'], 'vp_thr_owner': ['o'], 'vp_thr_owner2': ['o'], 'vp_thr_adopt': ['o']}),
+  'pub': dict(wrapper='w_pub.cpp', mode='lcs', unroll=3, cxxflags=MCXX, prune=True,
+              threads={'vp_thr_free': ['a', 'b'], 'vp_thr_owner': ['o'], 'vp_thr_owner2': ['o'], 'vp_thr_adopt': ['o']}),
 }
 HARNESSES = [
   dict(name='sizeclass', unit='front', harness='h_sizeclass.c', cbmc=['--unwind', '40'], scenarios=[{'PART': 1}, {'PART': 2}, {'PART': 3, 'CLASSES': ','.join(map(str, CLASSES))}],
@@ -16,6 +21,8 @@ HARNESSES = [
        scenarios=[{'RANGE': 0}, {'RANGE': 1}], timeout=900,
        desc='allocateAligned strategy selection for symbolic (size, power-of-two alignment <= 2^30); inner allocator cut to a contract stub',
        bounds={'size': 'RANGE0: 0..16383, RANGE1: 16384..2^46', 'alignment': '2^0..2^30', 'cut': 'internalPoolMalloc, getFromLLOCache, getTLS'}),
+  dict(name='pubfree', unit='pub2', harness='h_pub.c', defines={'ROUNDS': 2}, scenarios=[{'SC': 0}, {'SC': 6}, {'SC': 3}, {'SC': 5}], timeout=900, cbmc=['--unwind', '8', '--object-bits', '12'],
+       desc='x', bounds={}),
 ]
 MANIFEST = dict(
   level_text='Bounded symbolic execution of the real tbbmalloc front-end kernels: size-class functions for every request size; one inductive step of the slab (Block) operations from an arbitrary state satisfying the representation invariant, for every size class; allocateAligned strategy selection for symbolic size/alignment with the inner allocator cut to its contract. Call histories are covered by the inductive-step argument, not by exploration.',
